@@ -1,1 +1,3 @@
 //! Seeded generators, tie constructors and enumerators.
+pub mod rule;
+pub mod zone;
